@@ -162,7 +162,7 @@ var c14Pool = []string{"#", "a/#", "+/b", "a/+", "a/b", "", "a+", "#/b"}
 func runC14(c *Ctx) {
 	maxF, maxT := 6, 5
 	if c.Thorough() {
-		maxF, maxT = 8, 7
+		maxF, maxT = 10, 8
 	}
 	var topics []string
 	c14Strings(c14TopicAlphabet, 1, maxT, func(s string) bool { topics = append(topics, s); return true })
